@@ -9,7 +9,7 @@
 (*                                                                         *)
 (* Every clause yields [c |-> id, ok |-> holds, nv |-> antecedent held]    *)
 (***************************************************************************)
-EXTENDS Prov, FS, IO, SpecProvN
+EXTENDS Prov, FS, IO, SpecProvN, ProvNW
 
 Cl(id, nv, ok) == [c |-> id, ok |-> (~nv) \/ ok, nv |-> nv]
 
@@ -807,6 +807,16 @@ M_IO(step) ==
 M_FS(step) ==
   Cl("M_FS", step.op.op = "Save",
      FsRun(Repaired, FsInit(step.op.existing), step.events, 1, step.op.name).ok)
+(* the PROV-JSON text the library wrote is what the transcription of its writer (ProvJson.tla) *)
+(* produces from the model state                                                               *)
+M_Json(msPost, step) ==
+  Cl("M_Json", IsRT(step, "json") /\ step.stage \in {"read", "done"} /\ WfJSON(step.ast),
+     SameAJ(AbsJ(step.ast), EncAJ(msPost, step.op.h)))
+(* the PROV-N text the library printed is what the transcription of its printer (ProvNW.tla)   *)
+(* produces from the model state: same declarations in the same order, same expressions with   *)
+(* the same arguments and markers in the same positions, same attribute sets                   *)
+M_ProvN(msPost, step) ==
+  Cl("M_ProvN", IsRT(step, "provn") /\ step.exc = "none", AbsPN(step.ast) = EncPN(msPost, step.op.h))
 M_Eq(r, step) == Cl("M_Eq", step.op.op = "CompareAll" /\ step.exc = "none", r.res = step.res.eq)
 
 =============================================================================
